@@ -16,6 +16,7 @@ type Entry struct {
 	Perm uint32 `json:"perm"`
 	Size int    `json:"size,omitempty"` // body length; the body is generated from the entry index
 	Tag  byte   `json:"tag,omitempty"`
+	Cont bool   `json:"cont,omitempty"` // a regular file stored with typeflag '7' (contiguous file)
 }
 
 // Body returns the deterministic body of an entry.
@@ -37,6 +38,9 @@ func Build(entries []Entry) []byte {
 			h.Typeflag = tar.TypeDir
 		} else {
 			h.Typeflag = tar.TypeReg
+			if e.Cont {
+				h.Typeflag = tar.TypeCont
+			}
 			h.Size = int64(e.Size)
 		}
 		if err := w.WriteHeader(h); err != nil {
@@ -58,11 +62,15 @@ func Build(entries []Entry) []byte {
 // split on '/', drop empty and '.' elements, resolve '..' against the elements so far (escaping = false).
 func Resolve(name string) (p string, ok bool) {
 	var out []string
+	rooted := strings.HasPrefix(name, "/") // an absolute member name: the parent of the root is the root ("/../x" is "/x")
 	for _, el := range strings.Split(name, "/") {
 		switch el {
 		case "", ".":
 		case "..":
 			if len(out) == 0 {
+				if rooted {
+					continue
+				}
 				return "", false
 			}
 			out = out[:len(out)-1]
